@@ -984,7 +984,9 @@ def c12_histories(groups, tier):
     probs = scan_sources()
     info["source_scan"] = probs or "clean"
     for pr in probs:
-        findings.append(_F("O", "source scan: the code uses %s, which the pure model does not represent" % pr))
+        # an assumption of the model is broken, not a demonstrated failure: reported like a broken correspondence
+        # (with `no-failing-input-found` unless the histories above exhibit a failing one)
+        findings.append(_F("K", "source scan: the code uses %s, which the pure model does not represent" % pr))
     return findings, info
 
 
